@@ -221,6 +221,7 @@ Vols == {R(0), R(10)}                     \* incl. an empty store (below the min
 Scales == {R(0), Q(1, 2), R(2), R(3)}
 SeriesOf(S, n) == [1..n -> S]
 TT == 2
+TTR == IF Grid = "small" THEN 2 ELSE 4        \* series length of the routing cases
 
 Tables == { <<R(2), R(0), R(4), R(1), Q(1, 2)>>,                              \* n=2: xs 0,4   ys 1, 1/2
             <<R(3), R(0), R(2), R(8), R(0), Q(1, 2), R(1)>>,                  \* n=3
@@ -268,10 +269,10 @@ Cases(m) ==
                sbe \in {R(0), R(4)}, ls \in {R(0), R(1)}, fpf \in {R(0), Q(1, 2), R(2)}, chf \in {Q(-1, 4), R(0), Q(1, 2), R(1)},
                s0 \in {R(0), R(6)}, s1 \in {R(8)}}
       [] m = "Lag" -> UNION {{[model |-> m, params |-> <<R(k)>>, inputs |-> <<s>>, states |-> b] : s \in SeriesOf(Vals, n), b \in SeriesOf({R(1), R(7)}, k)} :
-                              k \in 0..(TT + 2), n \in 1..TT}
+                              k \in 0..(TTR + 2), n \in 1..TTR}
       [] m = "Muskingum" -> {[model |-> m, params |-> p, inputs |-> <<s, u>>, states |-> <<R(0), pi, po>>] :
                                p \in {<<R(1), R(0), R(2)>>, <<R(2), Q(1, 2), R(2)>>, <<R(4), Q(1, 4), R(4)>>, <<R(86400), Q(1, 4), R(86400)>>},
-                               s \in SeriesOf({R(0), R(4), R(8)}, TT), u \in SeriesOf({R(0), R(4)}, TT),
+                               s \in SeriesOf({R(0), R(4), R(8)}, TTR), u \in SeriesOf({R(0), R(4)}, TTR),
                                pi \in {R(0), R(8)}, po \in {R(0), R(8)}}
 
 Init == /\ c \in UNION {Cases(m) : m \in Models} /\ emitted = FALSE
